@@ -445,6 +445,11 @@ func (tx *Transaction) GetTxGroup() (*Transactions, error) {
 		if err != nil {
 			return nil, err
 		}
+		// 交易组展开后, 成员交易的Header是组内第一笔交易的哈希而不是编码后的交易组;
+		// 哈希偶尔也能被解码成(没有成员的)Transactions, 不能把它当作交易组
+		if len(txs.Txs) != int(tx.GroupCount) {
+			return nil, ErrTxGroupCount
+		}
 		return &txs, nil
 	}
 	if tx.Next != nil || tx.Header != nil {
